@@ -65,7 +65,7 @@ fn space(ctx: &Ctx, values: &[u32], depth: usize, label: &str) -> Space { Space 
 
 pub fn run(ctx: &'static Ctx) {
     bfs(ctx, space(ctx, &VALUES, if ctx.quick() { 2 } else { 3 }, "bfs-full-alphabet"));
-    if ctx.thorough() { bfs(ctx, space(ctx, &[0, 0x7fff_ffff], 5, "bfs-extremes-deep")); }
+    if ctx.thorough() { bfs(ctx, space(ctx, &[0, 0x7fff_ffff], 7, "bfs-extremes-deep")); bfs(ctx, space(ctx, &[0, 1, 0x01020304, 0x7fff_ffff], 4, "bfs-four-values-depth4")); }
     // lines: long paths of 0' with at most d deviating components
     let (maxd, dev) = if ctx.quick() { (16usize, 1usize) } else { (24, 2) };
     let sp = space(ctx, &VALUES, maxd, "lines");
